@@ -320,4 +320,380 @@ theorem mut_cond (u : UserView) (b : BoardView) (r : Relation) :
     (Spec.hidden b && !Spec.restricted b && boardPermStat u b r == NBRD_BOARD) = (boardPermStat u b r == NBRD_BOARD) := by
   rw [boardPermStat_eq_BOARD]; cases Spec.hidden b <;> cases Spec.restricted b <;> simp
 
+/-! ### is_uBM: from the index form to a left-to-right scan -/
+
+def headOK : Option Nat → Bool
+  | none => true
+  | some p => !isalnum p
+
+def tailOK (u s : List Nat) : Bool :=
+  match s.drop u.length with
+  | [] => true
+  | c :: _ => !isalnum c
+
+/-- the walk of is_uBM as a scan: stop at the first position where the id is a prefix -/
+def scan (u : List Nat) : Option Nat → List Nat → Bool
+  | _, [] => false
+  | prev, c :: cs => if u.isPrefixOf (c :: cs) then headOK prev && tailOK u (c :: cs) else scan u (some c) cs
+
+/-- the two index tests of is_uBM at index `pre.length + j` of `pre ++ s` -/
+def testsAt (u pre s : List Nat) (j : Nat) : Bool :=
+  (if pre.length + j > 0 then !isalnum ((pre ++ s).getD (pre.length + j - 1) 0) else true) &&
+  (if pre.length + j + u.length < (pre ++ s).length then !isalnum ((pre ++ s).getD (pre.length + j + u.length) 0) else true)
+
+def evalAt (u pre s : List Nat) : Bool :=
+  match bytesIndex u s with
+  | none => false
+  | some j => testsAt u pre s j
+
+theorem bytesIndex_nil (u : List Nat) (hu : u ≠ []) : bytesIndex u [] = none := by
+  cases u with
+  | nil => exact absurd rfl hu
+  | cons a as => simp [bytesIndex]
+
+theorem head_test (pre s : List Nat) :
+    (if pre.length + 0 > 0 then !isalnum ((pre ++ s).getD (pre.length + 0 - 1) 0) else true) = headOK pre.getLast? := by
+  cases h : pre.getLast? with
+  | none =>
+    have : pre = [] := List.getLast?_eq_none_iff.1 h
+    subst this; simp [headOK]
+  | some p =>
+    have hne : pre ≠ [] := by intro e; subst e; simp at h
+    have hpos : 0 < pre.length := List.length_pos_iff.2 hne
+    have hlt : pre.length - 1 < pre.length := by omega
+    have : (pre ++ s).getD (pre.length - 1) 0 = p := by
+      rw [List.getD_eq_getElem?_getD, List.getElem?_append_left hlt]
+      rw [List.getLast?_eq_getElem?] at h
+      rw [h]; rfl
+    rw [List.getD_eq_getElem?_getD] at this
+    simp [headOK, hpos, this]
+
+theorem tail_test (u pre s : List Nat) :
+    (if pre.length + 0 + u.length < (pre ++ s).length then !isalnum ((pre ++ s).getD (pre.length + 0 + u.length) 0) else true)
+      = tailOK u s := by
+  unfold tailOK
+  simp only [Nat.add_zero, List.length_append]
+  by_cases hk : u.length < s.length
+  · have h1 : pre.length + u.length < pre.length + s.length := by omega
+    have h2 : (pre ++ s).getD (pre.length + u.length) 0 = s[u.length] := by
+      rw [List.getD_eq_getElem?_getD, List.getElem?_append_right (by omega)]
+      simp [hk]
+    rw [List.drop_eq_getElem_cons hk]
+    simp [h1, h2]
+  · have h1 : ¬ pre.length + u.length < pre.length + s.length := by omega
+    rw [List.drop_eq_nil_of_le (by omega)]
+    simp [h1]
+
+theorem testsAt_shift (u pre : List Nat) (c : Nat) (cs : List Nat) (j : Nat) :
+    testsAt u pre (c :: cs) (j + 1) = testsAt u (pre ++ [c]) cs j := by
+  unfold testsAt
+  have e1 : pre ++ c :: cs = (pre ++ [c]) ++ cs := by simp
+  have e2 : pre.length + (j + 1) = (pre ++ [c]).length + j := by simp; omega
+  rw [e1, e2]
+
+theorem evalAt_eq_scan (u : List Nat) (hu : u ≠ []) (s pre : List Nat) :
+    evalAt u pre s = scan u pre.getLast? s := by
+  induction s generalizing pre with
+  | nil => simp [evalAt, scan, bytesIndex_nil u hu]
+  | cons c cs ih =>
+    unfold evalAt scan
+    by_cases hp : u.isPrefixOf (c :: cs) = true
+    · simp only [bytesIndex, hp, ↓reduceIte]
+      unfold testsAt
+      rw [head_test, tail_test]
+    · simp only [bytesIndex, hp, ↓reduceIte]
+      have := ih (pre ++ [c])
+      simp only [List.getLast?_append, List.getLast?_singleton, Option.some_or] at this
+      rw [← this]
+      unfold evalAt
+      cases bytesIndex u cs with
+      | none => rfl
+      | some j => simp only [Option.map_some]; exact testsAt_shift u pre c cs j
+
+theorem bytesIndex_lt (u : List Nat) (hu : u ≠ []) (s : List Nat) (i : Nat) (h : bytesIndex u s = some i) : i < s.length := by
+  induction s generalizing i with
+  | nil => rw [bytesIndex_nil u hu] at h; exact absurd h (by simp)
+  | cons c cs ih =>
+    unfold bytesIndex at h
+    by_cases hp : u.isPrefixOf (c :: cs) = true
+    · simp [hp] at h; subst h; simp
+    · simp only [hp, ↓reduceIte] at h
+      cases hb : bytesIndex u cs with
+      | none => rw [hb] at h; exact absurd h (by simp)
+      | some j =>
+        rw [hb] at h; simp at h; subst h
+        have := ih j hb
+        simp; omega
+
+theorem cstr_idem (l : List Nat) : cstr (cstr l) = cstr l := by
+  unfold cstr
+  induction l with
+  | nil => rfl
+  | cons a as ih =>
+    by_cases h : a ≠ 0
+    · have hd : decide (a ≠ 0) = true := by simp [h]
+      rw [List.takeWhile_cons, hd]
+      simp only [↓reduceIte]
+      rw [List.takeWhile_cons, hd]
+      simp only [↓reduceIte]
+      rw [ih]
+    · have hd : decide (a ≠ 0) = false := by simp at h; simp [h]
+      rw [List.takeWhile_cons, hd]
+      simp
+
+/-- is_uBM on C strings = the scan, for a non-empty id -/
+theorem isUBMBytes_eq_scan (u b : List Nat) (hu : u ≠ []) (hb : cstr b = b) : isUBMBytes u b = scan u none b := by
+  have := evalAt_eq_scan u hu b []
+  simp only [List.getLast?_nil] at this
+  rw [← this]
+  unfold isUBMBytes cstrstr evalAt
+  cases h : bytesIndex u b with
+  | none => rfl
+  | some i =>
+    have hlt := bytesIndex_lt u hu b i h
+    have : ¬ i ≥ (cstr b).length := by rw [hb]; omega
+    simp only [this, ↓reduceIte]
+    unfold testsAt
+    simp
+
+/-! ### soundness and (conditional) completeness against the '/'-separated names -/
+
+def validId (u : List Nat) : Prop := u ≠ [] ∧ ∀ c ∈ u, isalnum c = true
+def wellFormedBM (b : List Nat) : Prop := ∀ c ∈ b, isalnum c = true ∨ c = 47
+
+def atStart : Option Nat → Bool
+  | none => true
+  | some p => !isalnum p
+
+theorem headOK_eq_atStart (p : Option Nat) : headOK p = atStart p := by cases p <;> rfl
+
+theorem splitSlash_ne_nil (s : List Nat) : Spec.splitSlash s ≠ [] := by
+  cases s with
+  | nil => simp [Spec.splitSlash]
+  | cons c cs =>
+    unfold Spec.splitSlash
+    by_cases h : c = 47
+    · simp [h]
+    · simp only [h, ↓reduceIte]; split <;> simp
+
+/-- a '/'-free word in front of a string extends the first name -/
+theorem splitSlash_append (u : List Nat) (hu : ∀ c ∈ u, c ≠ 47) (rest : List Nat) :
+    Spec.splitSlash (u ++ rest) = (u ++ (Spec.splitSlash rest).headD []) :: (Spec.splitSlash rest).tail := by
+  induction u with
+  | nil =>
+    have := splitSlash_ne_nil rest
+    cases h : Spec.splitSlash rest with
+    | nil => exact absurd h this
+    | cons n ns => simp [h]
+  | cons a as ih =>
+    have ha : a ≠ 47 := hu a (by simp)
+    have ih' := ih (fun c hc => hu c (by simp [hc]))
+    simp only [List.cons_append]
+    rw [Spec.splitSlash]
+    simp only [ha, ↓reduceIte]
+    rw [ih']
+
+theorem alnum_ne_slash (c : Nat) (h : isalnum c = true) : c ≠ 47 := by
+  intro e; subst e; simp [isalnum] at h
+
+theorem valid_noslash (u : List Nat) (hv : validId u) : ∀ c ∈ u, c ≠ 47 :=
+  fun c hc => alnum_ne_slash c (hv.2 c hc)
+
+theorem splitSlash_slash (cs : List Nat) : Spec.splitSlash (47 :: cs) = [] :: Spec.splitSlash cs := by
+  rw [Spec.splitSlash]; simp
+
+theorem splitSlash_other (c : Nat) (hc : c ≠ 47) (cs : List Nat) :
+    Spec.splitSlash (c :: cs) =
+      (c :: (Spec.splitSlash cs).headD []) :: (Spec.splitSlash cs).tail := by
+  rw [Spec.splitSlash]
+  simp only [hc, ↓reduceIte]
+  have := splitSlash_ne_nil cs
+  cases h : Spec.splitSlash cs with
+  | nil => exact absurd h this
+  | cons n ns => simp
+
+/-- the names available for a whole-name match from a scan position: all of them at a name start, all but the
+(partial) first one inside a name -/
+def avail (prev : Option Nat) (s : List Nat) : List (List Nat) :=
+  if atStart prev then Spec.splitSlash s else (Spec.splitSlash s).tail
+
+theorem tail_subset_avail (prev : Option Nat) (s : List Nat) (n : List Nat) (h : n ∈ (Spec.splitSlash s).tail) : n ∈ avail prev s := by
+  unfold avail; split
+  · exact List.mem_of_mem_tail h
+  · exact h
+
+/-- soundness of the scan: a positive answer names one of the '/'-separated names -/
+theorem scan_sound (u : List Nat) (hv : validId u) (s : List Nat) (hw : wellFormedBM s) (prev : Option Nat)
+    (h : scan u prev s = true) : u ∈ avail prev s := by
+  induction s generalizing prev with
+  | nil => simp [scan] at h
+  | cons c cs ih =>
+    have hwc : wellFormedBM cs := fun d hd => hw d (by simp [hd])
+    unfold scan at h
+    by_cases hp : u.isPrefixOf (c :: cs) = true
+    · simp only [hp, ↓reduceIte, Bool.and_eq_true] at h
+      obtain ⟨hh, ht⟩ := h
+      obtain ⟨rest, hr⟩ := List.isPrefixOf_iff_prefix.1 hp
+      rw [headOK_eq_atStart] at hh
+      unfold avail; rw [hh]; simp only [↓reduceIte]
+      rw [← hr, splitSlash_append u (valid_noslash u hv) rest]
+      have hd : (Spec.splitSlash rest).headD [] = [] := by
+        unfold tailOK at ht
+        rw [← hr, List.drop_left] at ht
+        cases rest with
+        | nil => simp [Spec.splitSlash]
+        | cons d r =>
+          simp only [Bool.not_eq_true'] at ht
+          have hdw : d = 47 := by
+            have := hw d (by rw [← hr]; simp)
+            rcases this with h1 | h1
+            · rw [h1] at ht; exact absurd ht (by simp)
+            · exact h1
+          subst hdw; simp [splitSlash_slash]
+      rw [hd]; simp
+    · simp only [hp, ↓reduceIte] at h
+      have ih' := ih hwc (some c) h
+      apply tail_subset_avail
+      rcases hw c (by simp) with hc | hc
+      · -- inside a name
+        have hns : c ≠ 47 := alnum_ne_slash c hc
+        rw [splitSlash_other c hns cs]
+        simpa [avail, atStart, hc] using ih'
+      · subst hc
+        rw [splitSlash_slash]
+        simpa [avail, atStart, isalnum] using ih'
+
+theorem head_prefix (s : List Nat) : (Spec.splitSlash s).headD [] <+: s := by
+  induction s with
+  | nil => simp [Spec.splitSlash]
+  | cons c cs ih =>
+    by_cases hc : c = 47
+    · subst hc; rw [splitSlash_slash]; simp
+    · rw [splitSlash_other c hc cs]
+      simp only [List.headD_cons]
+      exact List.cons_prefix_cons.2 ⟨rfl, ih⟩
+
+/-- no OTHER moderator name contains the id as a substring -/
+def noLookalike (u : List Nat) (names : List (List Nat)) : Prop := ∀ n ∈ names, n ≠ u → ¬ u <:+: n
+
+/-- conditional completeness of the scan -/
+theorem scan_complete (u : List Nat) (hv : validId u) (s : List Nat) (hw : wellFormedBM s) (prev : Option Nat)
+    (h2 : atStart prev = false → ¬ u <:+: (Spec.splitSlash s).headD [])
+    (h3 : noLookalike u (avail prev s))
+    (h4 : u ∈ avail prev s) : scan u prev s = true := by
+  induction s generalizing prev with
+  | nil =>
+    exfalso
+    unfold avail at h4
+    cases hs : atStart prev <;> simp [hs, Spec.splitSlash] at h4
+    exact hv.1 h4
+  | cons c cs ih =>
+    have hwc : wellFormedBM cs := fun d hd => hw d (by simp [hd])
+    unfold scan
+    by_cases hp : u.isPrefixOf (c :: cs) = true
+    · simp only [hp, ↓reduceIte, Bool.and_eq_true]
+      obtain ⟨rest, hr⟩ := List.isPrefixOf_iff_prefix.1 hp
+      have hsplit := splitSlash_append u (valid_noslash u hv) rest
+      rw [hr] at hsplit
+      have hinf : u <:+: (Spec.splitSlash (c :: cs)).headD [] := by
+        rw [hsplit]; simp only [List.headD_cons]
+        exact (List.prefix_append u _).isInfix
+      cases hs : atStart prev with
+      | false => exact absurd hinf (h2 hs)
+      | true =>
+        have hmem : (Spec.splitSlash (c :: cs)).headD [] ∈ avail prev (c :: cs) := by
+          unfold avail; rw [hs]; simp only [↓reduceIte]; rw [hsplit]; simp
+        have heq : (Spec.splitSlash (c :: cs)).headD [] = u := by
+          apply Decidable.byContradiction
+          intro hne
+          exact h3 _ hmem hne hinf
+        rw [hsplit] at heq
+        simp only [List.headD_cons] at heq
+        have hd : (Spec.splitSlash rest).headD [] = [] := by
+          have := congrArg List.length heq
+          simp only [List.length_append] at this
+          exact List.eq_nil_of_length_eq_zero (by omega)
+        refine ⟨by rw [headOK_eq_atStart]; exact hs, ?_⟩
+        unfold tailOK
+        rw [← hr, List.drop_left]
+        cases rest with
+        | nil => rfl
+        | cons d r =>
+          by_cases hd47 : d = 47
+          · subst hd47; simp [isalnum]
+          · rw [splitSlash_other d hd47 r] at hd; simp at hd
+    · simp only [hp, ↓reduceIte]
+      have hnp : ¬ u <+: c :: cs := fun h => hp (List.isPrefixOf_iff_prefix.2 h)
+      rcases hw c (by simp) with hc | hc
+      · -- c is inside a name
+        have hns : c ≠ 47 := alnum_ne_slash c hc
+        have hsplit := splitSlash_other c hns cs
+        have hstart : atStart (some c) = false := by simp [atStart, hc]
+        -- the (partial) first name c :: n
+        have hhead_ne : (Spec.splitSlash (c :: cs)).headD [] ≠ u := by
+          intro e
+          exact hnp (e ▸ head_prefix (c :: cs))
+        have hnot_head : ¬ u <:+: (Spec.splitSlash (c :: cs)).headD [] := by
+          cases hs : atStart prev with
+          | false => exact h2 hs
+          | true =>
+            have hmem : (Spec.splitSlash (c :: cs)).headD [] ∈ avail prev (c :: cs) := by
+              unfold avail; rw [hs]; simp only [↓reduceIte]; rw [hsplit]; simp
+            exact h3 _ hmem hhead_ne
+        have hav : avail (some c) cs = (Spec.splitSlash (c :: cs)).tail := by
+          unfold avail; rw [hstart, hsplit]; simp
+        apply ih hwc (some c)
+        · intro _ hinf
+          apply hnot_head
+          rw [hsplit]; simp only [List.headD_cons]
+          obtain ⟨l, r, e⟩ := hinf
+          exact ⟨c :: l, r, by rw [← e]; simp⟩
+        · intro n hn
+          rw [hav] at hn
+          exact h3 n (tail_subset_avail prev (c :: cs) n hn)
+        · rw [hav]
+          unfold avail at h4
+          cases hs : atStart prev with
+          | false => simpa [hs] using h4
+          | true =>
+            simp only [hs, ↓reduceIte] at h4
+            rw [hsplit] at h4 ⊢
+            simp only [List.mem_cons, List.tail_cons] at h4 ⊢
+            rcases h4 with h4 | h4
+            · exfalso; apply hhead_ne; rw [hsplit]; simp [h4]
+            · exact h4
+      · subst hc
+        have hsplit := splitSlash_slash cs
+        have hstart : atStart (some 47) = true := by simp [atStart, isalnum]
+        have hav : avail (some 47) cs = (Spec.splitSlash (47 :: cs)).tail := by
+          unfold avail; rw [hstart, hsplit]; simp
+        apply ih hwc (some 47)
+        · intro h; rw [hstart] at h; exact absurd h (by simp)
+        · intro n hn
+          rw [hav] at hn
+          exact h3 n (tail_subset_avail prev (47 :: cs) n hn)
+        · rw [hav]
+          unfold avail at h4
+          cases hs : atStart prev with
+          | false => simpa [hs] using h4
+          | true =>
+            simp only [hs, ↓reduceIte] at h4
+            rw [hsplit] at h4 ⊢
+            simp only [List.mem_cons, List.tail_cons] at h4 ⊢
+            rcases h4 with h4 | h4
+            · exact absurd h4 hv.1
+            · exact h4
+
+/-- is_uBM = the scan from the start of the moderator string -/
+theorem isUBM_eq_scan (id bm : List Nat) (hu : cstr id ≠ []) : isUBM id bm = scan (cstr id) none (cstr bm) :=
+  isUBMBytes_eq_scan (cstr id) (cstr bm) hu (cstr_idem bm)
+
+theorem avail_none (s : List Nat) : avail none s = Spec.splitSlash s := by simp [avail, atStart]
+
+theorem namedIn_iff (id bm : List Nat) (hu : cstr id ≠ []) :
+    Spec.namedIn id bm = true ↔ cstr id ∈ Spec.splitSlash (cstr bm) := by
+  unfold Spec.namedIn
+  have : (cstr id).isEmpty = false := by cases h : cstr id <;> simp_all
+  simp [this]
+
 end PttVerif.C07
